@@ -2,6 +2,7 @@ package main
 
 import (
 	"go/ast"
+	"go/token"
 	"go/types"
 	"sort"
 )
@@ -129,11 +130,146 @@ func (w *World) evalMethods(node string) []*FuncInfo {
 }
 
 func (w *World) evalMethod(node string) *FuncInfo {
+	if node == "Expression" {
+		return w.exprEvaluator()
+	}
 	m := w.evalMethods(node)
 	if len(m) == 0 {
 		return nil
 	}
 	return m[0]
+}
+
+// exprEvaluator: the central dispatch -- the evaluator method taking an
+// ast.Expression that type-switches over it into the per-node evaluators.
+func (w *World) exprEvaluator() *FuncInfo {
+	var best *FuncInfo
+	bestN := 0
+	for _, f := range w.evalMethods("Expression") {
+		sig := f.Obj.Type().(*types.Signature)
+		n := 0
+		inspectBody(f.Decl.Body, true, func(nd ast.Node) bool {
+			ts, ok := nd.(*ast.TypeSwitchStmt)
+			if !ok {
+				return true
+			}
+			var x ast.Expr
+			switch a := ts.Assign.(type) {
+			case *ast.AssignStmt:
+				if ta, ok := a.Rhs[0].(*ast.TypeAssertExpr); ok {
+					x = ta.X
+				}
+			case *ast.ExprStmt:
+				if ta, ok := a.X.(*ast.TypeAssertExpr); ok {
+					x = ta.X
+				}
+			}
+			if objOf(f.Pkg.TypesInfo, x) == sig.Params().At(0) {
+				n = len(ts.Body.List)
+			}
+			return true
+		})
+		if n > bestN {
+			best, bestN = f, n
+		}
+	}
+	if bestN < 5 {
+		return nil
+	}
+	return best
+}
+
+// operandWrappers: evaluator methods with the expression evaluator's
+// signature that are not the dispatch itself but obtain their value from it,
+// applied to their own parameter (e.g. "evaluate, and treat an unknown
+// identifier as nil"). The flag tells whether the wrapper contains the typed
+// unknown-identifier tolerance.
+func (w *World) operandWrappers() map[*types.Func]bool {
+	out := map[*types.Func]bool{}
+	ev := w.exprEvaluator()
+	if ev == nil {
+		return out
+	}
+	for _, f := range w.evalMethods("Expression") {
+		if f.Obj == ev.Obj {
+			continue
+		}
+		info := f.Pkg.TypesInfo
+		p := f.Obj.Type().(*types.Signature).Params().At(0)
+		calls := false
+		for _, c := range callsIn(f.Decl.Body, true) {
+			if calleeOf(info, c) == ev.Obj && len(c.Args) == 1 && objOf(info, c.Args[0]) == p {
+				calls = true
+			}
+		}
+		if !calls {
+			continue
+		}
+		tol := false
+		inspectBody(f.Decl.Body, true, func(n ast.Node) bool {
+			if ifs, ok := n.(*ast.IfStmt); ok && unknownToleranceIf(info, ifs) != nil {
+				tol = true
+			}
+			return true
+		})
+		out[f.Obj] = tol
+	}
+	return out
+}
+
+// isValueEvalCall: the call evaluates a sub-expression to a template value:
+// the expression evaluator itself or one of its operand wrappers.
+func (w *World) isValueEvalCall(info *types.Info, c *ast.CallExpr) bool {
+	cal := calleeOf(info, c)
+	if cal == nil || len(c.Args) != 1 {
+		return false
+	}
+	if ev := w.exprEvaluator(); ev != nil && cal == ev.Obj {
+		return true
+	}
+	_, ok := w.operandWrappers()[cal]
+	return ok
+}
+
+// unknownToleranceIf recognises the typed tolerance
+//
+//	if err != nil { if _, ok := err.(*ErrUnknownIdentifier); !ok { return ..., err } }
+//
+// (also with further conjuncts/disjuncts in the inner condition, and in the
+// flattened form `if _, ok := err.(*ErrUnknownIdentifier); err != nil && !ok`)
+// and returns the error variable, or nil.
+func unknownToleranceIf(info *types.Info, ifs *ast.IfStmt) types.Object {
+	assertOn := func(st ast.Stmt) types.Object {
+		as, ok := st.(*ast.AssignStmt)
+		if !ok || len(as.Rhs) != 1 || len(as.Lhs) != 2 {
+			return nil
+		}
+		ta, ok := unparen(as.Rhs[0]).(*ast.TypeAssertExpr)
+		if !ok || ta.Type == nil || !namedIs(info.Types[ta.Type].Type, modPath, "ErrUnknownIdentifier") {
+			return nil
+		}
+		return objOf(info, ta.X)
+	}
+	if ifs.Init != nil {
+		if o := assertOn(ifs.Init); o != nil && terminates(ifs.Body.List) {
+			return o
+		}
+		return nil
+	}
+	be, ok := unparen(ifs.Cond).(*ast.BinaryExpr)
+	if !ok || be.Op != token.NEQ || !isNilIdent(info, be.Y) {
+		return nil
+	}
+	errVar := objOf(info, be.X)
+	if errVar == nil || !isErrorType(errVar.Type()) {
+		return nil
+	}
+	for _, st := range ifs.Body.List {
+		if in, ok := st.(*ast.IfStmt); ok && in.Init != nil && assertOn(in.Init) == errVar && terminates(in.Body.List) {
+			return errVar
+		}
+	}
+	return nil
 }
 
 // sinkMethod: the evaluator method with a *strings.Builder parameter.
